@@ -190,6 +190,14 @@ func matrix() []*spec.Spec {
 		meth("m", body(obj(nil, dflt(val(fld(1, "color", prim(spec.String)), &spec.Val{Enum: []any{vtree.S("red"), vtree.S("green")}}), vtree.S("red")), dflt(fld(2, "level", prim(spec.Int64)), vtree.I(5)),
 			dflt(fld(3, "in_msg", prim(spec.String)), vtree.S("dflt")), fld(4, "data", prim(spec.String)))),
 			body(obj(nil, fld(1, "data", prim(spec.String)))), metadata(spec.Loc{Attr: "color", Wire: "x-color"}, spec.Loc{Attr: "level"})))))
+	precise := 123456789.123456789 // (and every value near it) needs all 64 bits: the required weights are never float32 values
+	// arrays of every numeric kind as request metadata: each element is written as text and parsed back, with the
+	// conversion of ITS kind (response headers / trailers that are arrays do not compile: listed finding D11)
+	add(design("rt-metadata-arrays", nil, svc("mdarr",
+		meth("m", body(obj([]string{"weights"}, val(fld(1, "weights", elemV(arr(prim(spec.Float64)), &spec.Val{Min: &precise})), &spec.Val{MinLen: &one}), fld(2, "ratios", arr(prim(spec.Float32))), fld(3, "counts", arr(prim(spec.Int32))),
+			fld(4, "bigs", arr(prim(spec.Int64))), fld(5, "ubigs", arr(prim(spec.UInt64))), fld(6, "names", arr(prim(spec.String))), fld(7, "flags", arr(prim(spec.Boolean))), fld(8, "ucounts", arr(prim(spec.UInt32))), fld(9, "data", prim(spec.String)))),
+			body(obj(nil, fld(1, "data", prim(spec.String)))),
+			metadata(spec.Loc{Attr: "weights"}, spec.Loc{Attr: "ratios", Wire: "x-ratios"}, spec.Loc{Attr: "counts"}, spec.Loc{Attr: "bigs"}, spec.Loc{Attr: "ubigs"}, spec.Loc{Attr: "names"}, spec.Loc{Attr: "flags"}, spec.Loc{Attr: "ucounts"})))))
 	add(design("rt-exclusive-bounds", nil, svc("excl",
 		meth("both", body(obj(nil, val(fld(1, "n", prim(spec.Int)), &spec.Val{ExclMin: &exMin, ExclMax: &exMax}), val(fld(2, "f", prim(spec.Float64)), &spec.Val{ExclMin: &exMin, ExclMax: &exMax}))), nil),
 		meth("single", body(obj(nil, val(fld(1, "lo", prim(spec.Int)), &spec.Val{ExclMin: &exMin}), val(fld(2, "hi", prim(spec.UInt32)), &spec.Val{ExclMax: &exMax}))),
